@@ -11,6 +11,7 @@ Oracle `c03.object`: the same for dataclass instances, the expected tree being
 computed from a declarative description of the binding model by the rules the
 xsdata documentation gives (c03_models.py).
 """
+import copy
 import re
 from xml.parsers import expat
 
@@ -234,11 +235,20 @@ def _parts(exp):
     raise ValueError(exp)
 
 
+# deviations a known finding predicts (switched on only while a failure is being explained)
+TOL = set()
+TOL_DEFAULT = [None]
+
+
 def _qname_forms(uri, local, scope):
     """the lexical QNames that resolve to (uri, local) in this scope"""
     forms = []
     if (scope.get(None) or None) == uri:
         forms.append(local)
+    elif "c03-qname-default-ns" in TOL and uri is None:
+        forms.append(local)          # written bare although a default namespace is in scope
+    elif "c03-qname-default-reset" in TOL and uri is not None and uri == TOL_DEFAULT[0] and not scope.get(None):
+        forms.append(local)          # written bare, then the default namespace was reset
     for p, u in scope.items():
         if p is not None and u and u == uri:
             forms.append(p + ":" + local)
@@ -258,6 +268,10 @@ def _match_parts(actual, parts, scope):
             return "text %r does not continue with the literal %r" % (actual, head[1])
         return _match_parts(actual[len(head[1]):], rest, scope)
     forms = _qname_forms(head[1], head[2], scope)
+    if "c03-qname-late-prefix" in TOL and head[1]:
+        mm = re.match(r"([A-Za-z_][\w.\-]*):" + re.escape(head[2]), actual)
+        if mm and mm.group(1) not in scope:
+            forms = forms + [mm.group(0)]   # a generated or standard prefix that was never declared
     last = "no prefix in scope is bound to %r for QName {%s}%s at %r" % (head[1], head[1], head[2], actual[:40])
     for f in sorted(forms, key=len, reverse=True):
         if actual.startswith(f):
@@ -358,36 +372,69 @@ def judge_output(text, exp):
     return None, ""
 
 
-def check_events(a):
-    try:
-        exp = expected_tree(a["events"], a["cfg"])
-    except NotJudged:
-        return None
+def _runs(a):
+    """(writer name, writer, configuration, only well-formedness?) for every run the oracle makes"""
     for wname, w in WRITERS.items():
         cfg = dict(a["cfg"])
         if wname == "lxml":
             cfg.pop("indent", None)
         elif cfg.get("indent"):
             continue  # indentation adds character data by design; checked for well-formedness below
-        try:
-            text = S.run_writer(w, a["events"], a["ns_map"], cfg)
-        except (SerializerError, XmlWriterError):
-            continue
-        except Exception as e:  # noqa: BLE001
-            return "writer=%s kind=leak:%s %s" % (wname, type(e).__name__, str(e)[:100])
-        kind, detail = judge_output(text, exp)
-        if kind:
-            return "writer=%s kind=%s %s" % (wname, kind, detail)
+        yield wname, w, cfg, False
     if a["cfg"].get("indent") and S.xml_chars(a["cfg"]["indent"]) and not a["cfg"]["indent"].strip(" \t\n\r"):
-        try:
-            text = S.run_writer(XmlEventWriter, a["events"], a["ns_map"], a["cfg"])
-        except (SerializerError, XmlWriterError):
-            return None
-        except Exception as e:  # noqa: BLE001
-            return "writer=native kind=leak:%s %s (indent)" % (type(e).__name__, str(e)[:100])
-        if S.parse_infoset(text) is None:
-            return "writer=native kind=not-wf indented output %r" % text[:200]
-    return None
+        yield "native", XmlEventWriter, a["cfg"], True
+
+
+def _run(a, w, cfg):
+    """("text", text) | ("declared", None) | ("leak", exception)"""
+    try:
+        return "text", S.run_writer(w, a["events"], a["ns_map"], cfg)
+    except (SerializerError, XmlWriterError):
+        return "declared", None
+    except Exception as e:  # noqa: BLE001
+        return "leak", e
+
+
+def _failures(a):
+    """every way the two writers fail on the input: (message, writer name, writer, cfg, kind, wf_only)"""
+    try:
+        exp = expected_tree(a["events"], a["cfg"])
+    except NotJudged:
+        return []
+    out = []
+    for wname, w, cfg, wf_only in _runs(a):
+        how, r = _run(a, w, cfg)
+        if how == "declared":
+            continue
+        if how == "leak":
+            kind = "leak:%s" % type(r).__name__
+            out.append(("writer=%s kind=%s %s%s" % (wname, kind, str(r)[:100], " (indent)" if wf_only else ""), wname, w, cfg, kind, wf_only))
+            continue
+        if wf_only:
+            if S.parse_infoset(r) is None:
+                out.append(("writer=native kind=not-wf indented output %r" % r[:200], wname, w, cfg, "not-wf", True))
+            continue
+        kind, detail = judge_output(r, exp)
+        if kind:
+            out.append(("writer=%s kind=%s %s" % (wname, kind, detail), wname, w, cfg, kind, False))
+    return out
+
+
+def _messages(a):
+    return [f[0] for f in _failures(a)]
+
+
+def check_events(a):
+    """None, or a failure message: one that no known finding explains if there is such a one
+    (a known defect of one writer must not hide an unknown one of the other)"""
+    fails = _failures(a)
+    if not fails:
+        return None
+    for f in fails:
+        why = explain_failure(a, f)
+        if why[0] is None:
+            return f[0] + why[1]
+    return fails[0][0]
 
 
 # ------------------------------------------------------------------ known findings: predicates on the input
@@ -528,14 +575,177 @@ KNOWN = {
 }
 
 
-def covered_events(a, msg):
-    m = re.match(r"writer=(\w+) kind=(\S+)", msg)
-    if not m:
-        return None
-    w, kind = m.group(1), m.group(2)
+# ---- counterfactuals: the input with the trait of one finding removed, everything else kept
+def _map_values(a, f_attr, f_data):
+    b = copy.deepcopy(a)
+    prev = None
+    for e in b["events"]:
+        if e[0] == "attr" and len(e) >= 3:
+            e[2] = f_attr(e[2], e, prev)
+        elif e[0] == "data" and len(e) >= 2:
+            e[1] = f_data(e[1], e, prev)
+        prev = e[0]
+    return b
+
+
+def _each_atom(v, f):
+    if isinstance(v, list):
+        return [f(x) for x in v]
+    return f(v)
+
+
+def n_nonxml_chars(a):
+    def clean(s):
+        return "".join(c if S.xml_chars(c) else "_" for c in s)
+
+    def atom(x):
+        if isinstance(x, str):
+            return clean(x)
+        if isinstance(x, dict) and "q" in x:
+            return {"q": clean(x["q"])}
+        return x
+
+    b = _map_values(a, lambda v, e, p: _each_atom(v, atom), lambda v, e, p: _each_atom(v, atom))
+    for e in b["events"]:
+        if e[0] in ("start", "end", "attr") and isinstance(e[1], str):
+            e[1] = clean(e[1])
+    b["ns_map"] = [[p, clean(u) if isinstance(u, str) else u] for p, u in b["ns_map"]]
+    for k in ("schema_location", "no_ns"):
+        if b["cfg"].get(k):
+            b["cfg"][k] = clean(b["cfg"][k])
+    return b
+
+
+def n_prefix_unicode_ncname(a):
+    b = copy.deepcopy(a)
+    out = []
+    for i, (p, u) in enumerate(b["ns_map"]):
+        if isinstance(p, str) and p and not S.is_ncname(p) and _py_ncname(p) and any(ord(c) > 127 for c in p):
+            p = "u%d" % i
+        out.append([p, u])
+    b["ns_map"] = out
+    return b
+
+
+def _local(t):
+    return t[t.find("}") + 1:] if t.startswith("{") else t
+
+
+def n_qname_late(a):
+    def data(v, e, prev):
+        if prev in ("start", "attr"):
+            return v
+        return _each_atom(v, lambda x: _local(x["q"]) if isinstance(x, dict) and "q" in x and x["q"].startswith("{") else x)
+
+    return _map_values(a, lambda v, e, p: v, data)
+
+
+def n_qname_default(a):
+    def atom(x):
+        return x["q"] if isinstance(x, dict) and "q" in x and x["q"] and not x["q"].startswith("{") else x
+
+    return _map_values(a, lambda v, e, p: _each_atom(v, atom), lambda v, e, p: _each_atom(v, atom))
+
+
+def n_qname_default_reset(a):
+    d = user_map(a["ns_map"]).get(None)
+    b = copy.deepcopy(a)
+    unqualified = False
+    for e in b["events"]:
+        if e[0] == "start":
+            c = S.clark(e[1])
+            unqualified = c is not None and c[0] is None
+        elif e[0] == "end":
+            unqualified = False
+        elif e[0] in ("attr", "data") and unqualified:
+            def atom(x, attr=e[0] == "attr"):
+                t = x["q"] if isinstance(x, dict) and "q" in x else (x if attr and isinstance(x, str) and x.startswith("{") else None)
+                if t:
+                    c = S.clark(t)
+                    if c and c[0] == d:
+                        return c[1]
+                return x
+
+            e[-1] = _each_atom(e[-1], atom)
+    return b
+
+
+NEUTRAL = {
+    "c03-qname-default-reset": n_qname_default_reset,
+    "c03-prefix-unicode-ncname": n_prefix_unicode_ncname,
+    "c03-nonxml-chars": n_nonxml_chars,
+    "c03-qname-late-prefix": n_qname_late,
+    "c03-qname-default-ns": n_qname_default,
+}
+
+
+def _predicted(fid, a, b, f):
+    """does the failure `f` of input `a` deviate from a correct run exactly as finding `fid` predicts?
+    (`b`: the input without the trait).  None = yes, else what else is wrong."""
+    _, wname, w, cfg, kind, wf_only = f
+    if kind.startswith("leak:"):
+        return None                    # no output to look at: the counterfactual has to do
+    how, text = _run(a, w, cfg)
+    if how != "text":
+        return "the run is not reproducible"
+    if kind == "infoset":
+        # the document must be right up to the deviation the finding predicts
+        TOL.add(fid)
+        TOL_DEFAULT[0] = user_map(a["ns_map"]).get(None)
+        try:
+            k2, d2 = judge_output(text, expected_tree(a["events"], a["cfg"]))
+        finally:
+            TOL.discard(fid)
+            TOL_DEFAULT[0] = None
+        return None if k2 is None else "apart from what the finding predicts: %s %s" % (k2, d2[:200])
+    if kind == "not-wf" and fid == "c03-nonxml-chars":
+        # the writer treats the characters as opaque: the text is that of the clean run, character by character
+        cfgb = dict(cfg)
+        for k in ("schema_location", "no_ns"):
+            if b["cfg"].get(k):
+                cfgb[k] = b["cfg"][k]
+        howb, textb = _run(b, w, cfgb)
+        clean = "".join(c if S.xml_chars(c) else "_" for c in text)
+        return None if howb == "text" and clean == textb else "the text is not that of the run without the characters: %r vs %r" % (clean[:200], (textb or "")[:200])
+    if kind == "not-wf" and fid == "c03-prefix-unicode-ncname":
+        howb, textb = _run(b, w, cfg)
+        t = text
+        for (p, _), (p2, _) in zip(a["ns_map"], b["ns_map"]):
+            if p != p2:
+                t = t.replace(p, p2)
+        return None if howb == "text" and t == textb else "the text is not that of the run with an ASCII prefix: %r vs %r" % (t[:200], (textb or "")[:200])
+    return None
+
+
+def explain_failure(a, f, depth=0):
+    """(finding id, "") when a known finding explains the failure `f` of input `a`:
+    * the input has the finding's trait and the failure is of a kind the finding produces on that writer,
+    * the output deviates from a correct one exactly as the finding predicts (`_predicted`),
+    * the same input without the trait passes, or fails only in ways known findings explain;
+    otherwise (None, note)."""
+    msg, wname, w, cfg, kind, wf_only = f
+    note = ""
     for fid, (pred, where) in KNOWN.items():
-        if kind in where.get(w, ()) and pred(a):
-            return fid
+        if kind in where.get(wname, ()) and pred(a):
+            b = NEUTRAL[fid](a)
+            if pred(b):
+                note = " [counterfactual of %s still has the trait]" % fid
+                continue
+            other = _predicted(fid, a, b, f)
+            if other:
+                note = " [%s does not explain it: %s]" % (fid, other)
+                continue
+            bad = [r for r in _failures(b) if depth >= 4 or explain_failure(b, r, depth + 1)[0] is None]
+            if not bad:
+                return fid, ""
+            note = " [without the trait of %s (ns_map=%r, events=%r) it still fails: %s]" % (fid, b["ns_map"], b["events"], bad[0][0][:200])
+    return None, note
+
+
+def covered_events(a, msg):
+    for f in _failures(a):
+        if f[0] == msg or msg.startswith(f[0]):
+            return explain_failure(a, f)[0]
     return None
 
 
